@@ -74,7 +74,8 @@ PROPS["C04"] = dict(
     # indexes such as 4294967288 (list "1 -8") would make the library allocate 512 MB per input: let such
     # allocations fail (the library's ENOMEM paths) instead of spending the budget in memset
     stages=[simple("str", "c04_bitmap_str", deadline={"quick": 240, "thorough": 3000}, env={"ASAN_OPTIONS": "max_allocation_size_mb=64"})],
-    explanation="All subsets of 12 (16 thorough) boundary bit positions x 6 tails x 2 representations are printed in the three "
+    explanation="Every assignment of the first six 32-bit groups over {0, 0xffffffff, 1, 0x80000000} (plus 0x0000ffff, 0xffff0000 thorough) x {finite, infinite from 192, infinite from 224}; "
+                "all subsets of 12 (16 thorough) boundary bit positions x 6 tails x 2 representations are printed in the three "
                 "formats at every buffer length 0..needed+2 and with NULL/0; texts are parsed back by hwloc and by a reference parser. "
                 "All strings of length <= 5 (6) over {0 1 8 f x , - . space 0x80} and all single-character mutations of printed texts are "
                 "given to the three parsers as exact-size heap copies.",
